@@ -148,6 +148,7 @@ def run(chk: harness.Check):
 
     # ---- D5 core separator precedence ---------------------------------------------------------
     d5_core_separator(chk, F)
+    d6_inline_same_text(chk, F)
 
     # ---- D3 propagation -----------------------------------------------------------------------
     allow_const = {a["function"]: a for a in tab.get("constant_extensions", [])}
@@ -237,6 +238,31 @@ def run(chk: harness.Check):
 def _short(ck):
     from inventory import short
     return short(ck)
+
+
+def d6_inline_same_text(chk, F):
+    """With and without INLINE_QUANTITIES a step text without a quantity phrase must come out as the same single item:
+    every Item::Text built in in_step — in the gated arm and in the plain arm — is cut from the one joined string
+    `text.text()` of the event (never from individual fragments or another rendering)."""
+    from cfgq import aggregates
+    from flow import resolve, leaves, show
+    R = "cooklang::analysis::event_consumer::RecipeCollector::in_step"
+    if R not in F.funcs:
+        chk.fail("anchor-missing", "in_step", "", "anchor-missing: RecipeCollector::in_step not found")
+        return
+    sites = aggregates(F, R, "model::Item", "Text")
+    chk.floor("C02.D6-inline-same-text", "Item::Text constructions", len(sites), 2)
+    ALLOWED = ("text::Text::text", "ToString>::to_string", "AsRef<T>>::as_ref", "event_consumer::find_inline_quantity", "Cow::<B>::into_owned",
+               "Deref>::deref", "Into<U>>::into", "From<T>>::from", "ToOwned>::to_owned", "Clone>::clone", "String::as_str", "Borrow<T>>::borrow")
+    for ff, i, st, d in sites:
+        e = resolve(ff, d["value"])
+        calls = [l[5:] for l in leaves(e) if l.startswith("call:")]
+        extra = [c for c in calls if not any(c.endswith(a) for a in ALLOWED)]
+        ok = any(c.endswith("text::Text::text") for c in calls) and not extra
+        chk.expect(ok, "C02.D6-inline-same-text", f"in_step|Item::Text#{sites.index((ff, i, st, d))}", f"{ff.file}:{st.get('line')}",
+                   f"a text item is not cut from the joined step text `text.text()` (lineage: {sorted(set(calls))[:5]}): with and without "
+                   "INLINE_QUANTITIES the same core step would be split into different items",
+                   sample=f"{ff.file}:{st.get('line')}: Item::Text ← slice/copy of text.text()")
 
 
 def d5_core_separator(chk, F):
